@@ -1,4 +1,4 @@
-"""C05 — the simple reader equals the documented view of the raw data (conversion functions and pop_point; iterator bookkeeping excluded)."""
+"""C05 — the simple reader equals the documented view of the raw data (conversion functions, pop_point, and one inductive step of the iterators' count/order bookkeeping)."""
 from vlib import mlane
 
 FUNCTIONS = ["convert_to_cartesian, convert_to_spherical, convert_intensity, transform_point (MIR)", "PointCloudReaderSimple::{new,prepare_transform,prepare_indices,pop_point,normalize_value} (MIR)",
@@ -11,7 +11,12 @@ ASSUME = [
     "state value outside its documented set, scaled integers are value x scale + offset, colour/intensity absent exactly when flagged, row/column default -1, normalisation on/off selects the documented expression "
     "(division uninterpreted here; its value properties are C13)",
     "Iterator::next: the FIRST next() of the raw and of the simple iterator over two legal layouts ([data packet without a complete point, data packet with one point] and [data packet with one point]) "
-    "delivers the point (symbolic device content constrained to that layout, any section position); general bookkeeping over many points (count/order equal to the raw iterator, switches per batch) is not covered",
+    "delivers the point (symbolic device content constrained to that layout, any section position); also over an all-constant prototype with any bytes behind the section header",
+    "count/order bookkeeping, one inductive step for BOTH iterators: from a state in which the queue reader holds 2 complete points (any values; legal invalid-state) and `read` < `records` (both symbolic), "
+    "two next() calls deliver the OLDEST buffered point first, then the next one, each counting exactly one delivered point; None appears exactly when read reaches records, and the device is not touched while "
+    "complete points are buffered.  The row index is the identity tag.  Simple iterator: post-processing off (quick) and ANY setting of apply_pose / spherical_to_cartesian / cartesian_to_spherical / intensity_to_color "
+    "(thorough), where additionally each switch is shown not to change aspects it does not document (validity, stored Cartesian values without apply_pose, no spherical without c2s, no colour/intensity). "
+    "Batches of more than 2 points and refills in the middle of a batch are outside the bound",
     "pop_point counterexamples are replayed natively through PointCloudReaderSimple::new over a sealed device, with the raw values pushed into the queues by a test-only helper",
 ]
 
@@ -19,6 +24,6 @@ ASSUME = [
 def run(ctx):
     from mirsym import spec_iter, spec_simple
     tier = ctx["tier"]
-    obls, samples = mlane.run_scenarios("C05", "O05", spec_simple.scenarios(tier) + spec_simple.pop_scenarios(tier) + spec_iter.scenarios(tier)[:3], ctx, "one point per run; all component values symbolic; attribute sets concrete")
+    obls, samples = mlane.run_scenarios("C05", "O05", spec_simple.scenarios(tier) + spec_simple.pop_scenarios(tier) + spec_iter.scenarios(tier)[:3] + spec_iter.const_scenarios(tier)[1:] + spec_iter.batch_scenarios(tier), ctx, "one point per run; all component values symbolic; attribute sets concrete")
     return dict(obligations=obls, functions=FUNCTIONS, assumptions=ASSUME, samples=samples,
                 extra={"engine": "mirsym (MIR -> z3 5.1)", "mir_regenerated_from": "/repo working tree"})
